@@ -31,7 +31,7 @@ const (
 
 func c14Msg(i int) (*message.Message, string) {
 	key := vrt.PickStr("key"+strconv.Itoa(i), "a", "b")
-	if vrt.Bool("key" + strconv.Itoa(i) + ".long") {
+	if vrt.Bound("longkeys", 1) == 1 && vrt.Bool("key"+strconv.Itoa(i)+".long") {
 		key = vrt.PickStr("key"+strconv.Itoa(i)+".l", c14LongA, c14LongB)
 	}
 	m := message.NewMessage("m"+strconv.Itoa(i), nil)
@@ -157,10 +157,24 @@ func HarnessC14Defaults() {
 			return nil, nil
 		})
 	}
+	// a second wrapper built from the same Deduplicator shares its memory of keys (zero value only: a nil one has
+	// nothing to share)
+	h2 := h
+	if d != nil && !viaPublisher && vrt.Bool("second.middleware.from.the.same.deduplicator") {
+		h2 = d.Middleware(func(m *message.Message) ([]*message.Message, error) {
+			mu.Lock()
+			passed++
+			mu.Unlock()
+			return nil, nil
+		})
+	}
 	present := func(i int) {
 		m := message.NewMessage("m"+strconv.Itoa(i), message.Payload("same payload"))
 		if viaPublisher {
 			vrt.Assert(pub.Publish("t", m) == nil, "publish succeeds")
+		} else if i == 1 {
+			_, err := h2(m)
+			vrt.Assert(err == nil, "duplicates are dropped as successes")
 		} else {
 			_, err := h(m)
 			vrt.Assert(err == nil, "duplicates are dropped as successes")
